@@ -49,7 +49,7 @@ func decoderFuncs(c *Ctx) ([]*ssa.Function, map[*ssa.Function][]string) {
 }
 
 func rulesC11(c *Ctx, r *Report) {
-	r.explain("Decides, for all code reachable from the decoder entries (fasta/fastq/sam/bed/newick Reader, sam.ReaderHeader, smtext.ReadNCBI): (GRD) every constant, sentinel-based or length-bounded index, slice and make is within bounds on every path, from the guards that dominate it (linear length algebra, predicate summaries, inductive stack-depth bounds); computed indices the prover cannot bound are listed as not covered; (PANIC) every explicit panic reachable from a decoder is discharged — the parser-state panic by showing no state value reaches it, parseInts' length panic by its single call site, regexp.MustCompile by compiling its constant pattern; no unchecked type assertion, non-constant integer divisor or write to a possibly-nil map is reachable; (B0) in every reachable function of the codec packages, no error returned by any call (strconv, hex, the package's own parsers, …) is dropped: it is returned, yielded or wrapped on every path; (CONV) no integer-to-string conversion (string(b) is two bytes for b >= 0x80, the parser demands one); (YD4) in sam.ReaderHeader a line's parse error is yielded and, if the consumer continues, the next line is read with no second item for that line; (A4, G2, G3) the fixed-point structure shared with C03/C04/C05: no un-quoting layer under a raw writer, every tag type the reader produces is written back to a text that reads as the same type with inverse value codecs, every special byte of the Newick tokenizer is protected by the writer. Not decided: termination; panics behind indices the prover lists as not covered; nil dereferences; the fixed-point equality itself. Added rules shared with other properties: DIST0/END, SCAN-ALIAS, NUM-WIDTH, G2-SPLIT, LINE-WHOLE, the FASTA automaton, TOK and PARSE for Newick, the SAM parser column table, MAKE-APPEND, YD1 for every codec iterator; E-GRD knows strings/bytes.Index* results, discharges sentinels only on the goal's own symbol, eliminates phi edges ruled out by a dominating != test, and checks make capacities. Writer side shared from C03/C04: (SAM-COL/FMT-CONST/1L) SAM.Write prints the 11 mandatory columns from their own fields with the verbs the parser inverts (%d of an int, not an unsigned rendering); (G4a) BED.Write prints, for every N, exactly the first N fields themselves (no substituted defaults). Also shared: the FASTA writer rules (W-HDR, W80, FMT-CONST) — every accepted FASTA record is written whole, last line included. (ACYCLIC) no module function reachable from a decoder entry can reach itself: stack depth does not grow with the input.")
+	r.explain("Decides, for all code reachable from the decoder entries (fasta/fastq/sam/bed/newick Reader, sam.ReaderHeader, smtext.ReadNCBI): (GRD) every constant, sentinel-based or length-bounded index, slice and make is within bounds on every path, from the guards that dominate it (linear length algebra, predicate summaries, inductive stack-depth bounds); computed indices the prover cannot bound are listed as not covered; (PANIC) every explicit panic reachable from a decoder is discharged — the parser-state panic by showing no state value reaches it, parseInts' length panic by its single call site, regexp.MustCompile by compiling its constant pattern; no unchecked type assertion, non-constant integer divisor or write to a possibly-nil map is reachable; (B0) in every reachable function of the codec packages, no error returned by any call (strconv, hex, the package's own parsers, …) is dropped: it is returned, yielded or wrapped on every path; (CONV) no integer-to-string conversion (string(b) is two bytes for b >= 0x80, the parser demands one); (YD4) in sam.ReaderHeader a line's parse error is yielded and, if the consumer continues, the next line is read with no second item for that line; (A4, G2, G3) the fixed-point structure shared with C03/C04/C05: no un-quoting layer under a raw writer, every tag type the reader produces is written back to a text that reads as the same type with inverse value codecs, every special byte of the Newick tokenizer is protected by the writer. Not decided: termination; panics behind indices the prover lists as not covered; nil dereferences; the fixed-point equality itself. Added rules shared with other properties: DIST0/END, SCAN-ALIAS, NUM-WIDTH, G2-SPLIT, LINE-WHOLE, the FASTA automaton, TOK and PARSE for Newick, the SAM parser column table, MAKE-APPEND, YD1 for every codec iterator; E-GRD knows strings/bytes.Index* results, discharges sentinels only on the goal's own symbol, eliminates phi edges ruled out by a dominating != test, and checks make capacities. Writer side shared from C03/C04: (SAM-COL/FMT-CONST/1L) SAM.Write prints the 11 mandatory columns from their own fields with the verbs the parser inverts (%d of an int, not an unsigned rendering); (G4a) BED.Write prints, for every N, exactly the first N fields themselves (no substituted defaults). Also shared: the FASTA writer rules (W-HDR, W80, FMT-CONST) — every accepted FASTA record is written whole, last line included. (ACYCLIC) no module function reachable from a decoder entry can reach itself: stack depth does not grow with the input. BED-SKIP and SAM-SKIP are shared from C04/C03: a record's own text is read back as a record.")
 	r.assume("standard library functions do not panic on the arguments the decoders give them; strconv/hex report malformed input through their error result")
 	entries := decoderEntries(c)
 	if len(entries) < 7 {
